@@ -12,7 +12,7 @@
 From Coq Require Import ZArith List Bool QArith.
 Import ListNotations.
 From Coq Require Import Permutation.
-From Mds Require Import Gen.DistinctConst Distinct.DistinctModel Distinct.DistinctSpec Distinct.DistinctProofs Distinct.DistinctProofsExp.
+From Mds Require Import Gen.DistinctConst Distinct.DistinctModel Distinct.DistinctSpec Distinct.DistinctProofs Distinct.DistinctProofsExp Distinct.DistinctProofsReal.
 Local Open Scope Z_scope.
 
 (* While fewer distinct values than the size have been added since construction or the last Reset
@@ -194,3 +194,43 @@ Theorem C19_real_coin_gap :
     (forall w : Z, coin_fail maxu maxu w = false).
 Proof. exact real_coin_all. Qed.
 Print Assumptions C19_real_coin_gap.
+
+(* ---- the REAL coin over whole histories.  [Rrun] is the same program in the same expectation
+   monad with the coin of the code: a uniform 64-bit word (64 independent fair bits) is drawn
+   exactly when the threshold is below MaxUint64 and compared with it by the generated condition
+   coin_fail -- nothing ideal is left except the uniformity and independence of the words.  The
+   2^-64 deficit of every coin below the maximum threshold (C19_real_coin_gap) biases the estimate
+   DOWNWARDS by at most distinct * adds / 2^64, adds = the number of Add calls of the history:
+
+       distinct * (1 - adds / 2^64)  <=  E_real[Len * 2^k]  <=  distinct.
+
+   (Each value loses 2^k / 2^64 of its weight when it is added at exponent k, nothing else is
+   lost, and E[2^k] <= 1 + adds because a pass needs a won coin.)  Pinned single pass, every size,
+   every map order, every history including Resets.  For a stream of a million Adds the relative
+   bias is below 2^-44. *)
+Theorem C19_real_bias :
+  forall (T : Type) (eqb : T -> T -> bool), (forall x y, reflect (x = y) (eqb x y)) ->
+  forall (ord : list T -> list T), (forall l, Permutation (ord l) l) ->
+  forall (fuel : nat) (cap : Z) (ops : list (op T)),
+    (inject_Z (Z.of_nat (distinct T eqb ops)) * (1 - (1 / inject_Z two64) * inject_Z (Z.of_nat (nadds T ops)))
+       <= Rrun T eqb ord true fuel cap (init T) ops (fun o => estimate T (st_of T o)))%Q
+    /\ (Rrun T eqb ord true fuel cap (init T) ops (fun o => estimate T (st_of T o))
+       <= inject_Z (Z.of_nat (distinct T eqb ops)))%Q.
+Proof. exact real_bias. Qed.
+Print Assumptions C19_real_bias.
+
+(* the hypotheses are satisfiable and the bounds are not vacuous: 3 distinct values in 4 Adds *)
+Example C19_real_bias_ex :
+  let ops := [OAdd 1%Z None; OAdd 2%Z None; OAdd 1%Z None; OAdd 3%Z None] in
+  (3 * (1 - (1 / inject_Z two64) * 4) <= Rrun Z Z.eqb (fun l => l) true 0 2 (init Z) ops (fun o => estimate Z (st_of Z o)))%Q
+  /\ (Rrun Z Z.eqb (fun l => l) true 0 2 (init Z) ops (fun o => estimate Z (st_of Z o)) <= 3)%Q.
+Proof. exact (C19_real_bias Z Z.eqb Z.eqb_spec (fun l => l) (fun l => Permutation_refl l) 0%nat 2 _). Qed.
+
+(* The deficit is real, so C19_unbiased does NOT hold of the real coin exactly: size 1, Add 1,
+   Add 2 -- the second value is buffered with probability (2^63 - 1) / 2^64 at weight 2, so its
+   expected weight is 1 - 2/2^64 (the bound above allows 1 - 2/2^64 for it: tight here). *)
+Theorem C19_real_coin_biased :
+  (Rrun Z Z.eqb (fun l => l) true 0 1 (init Z) [OAdd 1%Z None; OAdd 2%Z None]
+        (fun o => phi Z Z.eqb 2%Z (st_of Z o)) == 1 - 2 * (1 / inject_Z two64))%Q.
+Proof. exact real_coin_biased_witness. Qed.
+Print Assumptions C19_real_coin_biased.
